@@ -1,14 +1,184 @@
-(* C06 - statements only (first version: non-vacuity Examples; the theorems are added below as they are proved) *)
+(* C06  Reads and writes follow the attribute value semantics.
+   Statements only; proofs live in AttSrv/AttSrvProofsVal.v (refinement of the reference semantics) and
+   AttSrv/AttSrvProofsC06.v.
+
+   Reference semantics (AttSrvSpecVal.v): the value store is one byte string per bound variable / handler buffer;
+   [splice v off d] = v with the bytes d at position off; [sub v off n] = n bytes of v from off;
+   [spec_readable] / [spec_writable] are the permissions the options stand for (no_read_access, no_write_access,
+   const, fixed_value / cstring_value / fixed_blob_value, missing read / write handler). *)
 From BT Require Import Base.ListX AttDb.AttDbModel NQueue.NQueueModel AttSrv.AttSrvModel AttSrv.AttSrvSpecVal
-  AttSrv.AttSrvSpecC06 AttSrv.AttSrvExamplesVal.
+  AttSrv.AttSrvSpecC06 AttSrv.AttSrvProofsVal AttSrv.AttSrvProofsC06 AttSrv.AttSrvExamplesVal.
 Local Open Scope N_scope.
 
-Example C06_wf_nonvacuous : wf cfg_v_wq10 /\ wf cfg_v_enc_server_none /\ wf cfg_v_handlers.
-Proof. repeat split; vm_compute; reflexivity. Qed.
+(* ---- writes: a Write Request / Write Command / executed prepared write through a characteristic value: if it
+   succeeds, the stored value is the old one with exactly the written bytes at the written position - of this
+   characteristic and no other -, the write lies inside the value and the value is writable; if it is rejected
+   (permission, security, offset, length, not long), every value is unchanged. Every value kind, size, offset,
+   length, state, link security. *)
+Theorem C06_write_exact :
+  forall c st sec s ch g off data st' rc,
+    value_write c st sec s ch g off data = (st', rc) ->
+    (rc = Success ->
+       vals st' = upd (vals st) g (splice (get_val st g) off data) /\ off + len data <= len (get_val st g)
+       /\ spec_writable ch = true /\ stored ch = true)
+    /\ (rc <> Success -> vals st' = vals st).
+Proof. exact value_write_exact. Qed.
+Print Assumptions C06_write_exact.
 
-(* the monitor accepts the model's own trace of a small history *)
-Example C06_monitor_accepts_model_trace :
-  monitor cfg_v_wq10 (srv_run cfg_v_wq10 (srv_init cfg_v_wq10)
-    [OpIn O [10; 3; 0] 23; OpIn O [18; 3; 0; 1; 2; 3; 4] 23; OpVal O; OpIn 1 [22; 3; 0; 1; 0; 9; 9] 23; OpVal O;
-     OpIn 2 [22; 3; 0; 0; 0; 7] 23; OpIn 1 [24; 1] 23; OpVal O; OpIn O [10; 11; 0] 23; OpSec O true 1; OpIn O [10; 11; 0] 23]) = None.
+(* what "exactly the written bytes at the position and nothing else" means byte by byte *)
+Theorem C06_splice_bytes :
+  forall (v : list N) off (d : list N) i, off + len d <= len v ->
+    length (splice v off d) = length v /\
+    nth i (splice v off d) 0 =
+      if (N.to_nat off <=? i)%nat && (i <? N.to_nat off + length d)%nat then nth (i - N.to_nat off) d 0 else nth i v 0.
+Proof. intros v off d i H. split; [apply splice_length; exact H|apply splice_nth; exact H]. Qed.
+Print Assumptions C06_splice_bytes.
+
+(* every write through ANY attribute (value, CCCD, declaration, descriptor) answers and changes the state as
+   the reference semantics says: the states stay related *)
+Theorem C06_write_refines_reference :
+  forall c st a cid at_ off data st' rc m,
+    sim c st a -> access_write c st cid at_ off data = Some (st', rc) ->
+    fst (awrite c a cid at_ off data m) = to_ares rc /\ sim c st' (snd (awrite c a cid at_ off data m)).
+Proof. exact access_write_sim. Qed.
+Print Assumptions C06_write_refines_reference.
+
+(* ---- reads: Read / Read Blob (and every other read access) of a readable value on a sufficiently secure link
+   return the current value bytes from the offset, truncated to what the caller may take (MTU - 1), or Invalid
+   Offset exactly when the offset is past the end; a read changes no value *)
+Theorem C06_read_value_bytes :
+  forall c st enc pair s ch g off maxlen st' rc d,
+    value_read c st (enc, pair) s ch g off maxlen = (st', rc, d) ->
+    k1 ch = false -> sec_error (spec_protected c s ch) enc pair = None -> spec_readable ch = true -> not_long ch off = false ->
+    let v := spec_value (vals st) ch g in
+    (len v < off /\ rc = Err err_invalid_offset /\ d = [])
+    \/ (off <= len v /\ rc = Success /\ d = sub v off (N.min maxlen (len v - off))).
+Proof. exact value_read_bytes. Qed.
+Print Assumptions C06_read_value_bytes.
+
+Theorem C06_read_changes_no_value :
+  forall c st cid a i off maxlen st' rc d, access_read c st cid a i off maxlen = Some (st', rc, d) -> vals st' = vals st.
+Proof. intros c st cid a i off maxlen st' rc d H. apply access_read_same in H. apply H. Qed.
+Print Assumptions C06_read_changes_no_value.
+
+(* ---- permissions *)
+(* a value that must not be writable (const, no_write_access, fixed, cstring / blob, no write handler): Write Not
+   Permitted, nothing changes; every access path goes through value_write (Write Request, Write Command, Prepare
+   Write's probe, Execute Write) *)
+Theorem C06_write_permission :
+  forall c st enc pair s ch g off data st' rc,
+    value_write c st (enc, pair) s ch g off data = (st', rc) ->
+    sec_error (spec_protected c s ch) enc pair = None -> spec_writable ch = false ->
+    rc = Err err_write_not_permitted /\ vals st' = vals st.
+Proof. exact write_permission. Qed.
+Print Assumptions C06_write_permission.
+
+(* a value that must not be readable answers Read Not Permitted on every read access (Read, Read Blob, Read By
+   Type, Read Multiple go through value_read) *)
+Definition C06_read_permission_full : Prop := read_permission_full.
+
+(* refuted: a handler based value with a read handler and no_read_access is read (known finding
+   C06-handler-value-ignores-no-read-access; configuration v_handler_noread, first characteristic) *)
+Theorem C06_read_permission_refuted : ~ C06_read_permission_full.
+Proof.
+  intros H.
+  set (ch := mkChar (U16 10752) HNone (VHandler 4 true true true) true false false false false false None [] (mkEnc false false false)).
+  set (s := mkSvc (U16 6160) false None [] [ch] (mkEnc false false false) []).
+  destruct (H cfg_v_handler_noread (srv_init cfg_v_handler_noread) false 0 s ch O 0 22
+              (fst (fst (value_read cfg_v_handler_noread (srv_init cfg_v_handler_noread) (false, 0) s ch O 0 22)))
+              Success [1; 12; 23; 34]) as [X _]; try reflexivity.
+  discriminate X.
+Qed.
+Print Assumptions C06_read_permission_refuted.
+
+(* what holds: every value kind except (read handler + no_read_access) *)
+Theorem C06_read_permission_partial :
+  forall c st enc pair s ch g off maxlen st' rc d,
+    value_read c st (enc, pair) s ch g off maxlen = (st', rc, d) ->
+    k1 ch = false -> sec_error (spec_protected c s ch) enc pair = None -> spec_readable ch = false ->
+    rc = Err err_read_not_permitted /\ d = [].
+Proof. exact read_permission_partial. Qed.
+Print Assumptions C06_read_permission_partial.
+
+(* ---- the declared properties match the permissions: the properties byte of every characteristic declaration
+   is the reference byte, whose bits are: Read <-> readable; Write <-> writable and not only_write_without_response;
+   Write Without Response <-> (only_)write_without_response declared; Notify / Indicate <-> declared *)
+Theorem C06_properties_match :
+  forall ch, char_properties ch = spec_properties ch
+    /\ N.testbit (spec_properties ch) 1 = spec_readable ch
+    /\ N.testbit (spec_properties ch) 3 = (spec_writable ch && negb (c_owwr ch))
+    /\ N.testbit (spec_properties ch) 2 = (c_owwr ch || (stored ch && c_wwr ch))
+    /\ N.testbit (spec_properties ch) 4 = (c_notify ch && negb (match c_value ch with VString _ => true | _ => false end))
+    /\ N.testbit (spec_properties ch) 5 = (c_indicate ch && negb (match c_value ch with VString _ => true | _ => false end))
+    /\ spec_properties ch < 64.
+Proof. intros ch. split; [apply char_properties_spec|apply spec_properties_bits]. Qed.
+Print Assumptions C06_properties_match.
+
+(* ---- the whole property over histories: the monitor (reference store beside the trace) accepts every trace
+   of the model: any configuration, request histories of any length, all PDU bytes *)
+Definition C06_refines_reference_store_full : Prop :=
+  forall c ops, wf c -> forallb not_scanned ops = true -> monitor c (srv_run c (srv_init c) ops) = None.
+
+Theorem C06_refines_reference_store_refuted : ~ C06_refines_reference_store_full.
+Proof.
+  intros H. specialize (H cfg_v_handler_noread [OpIn O [10; 3; 0] 23]).
+  assert (W : wf cfg_v_handler_noread) by (vm_compute; reflexivity). specialize (H W eq_refl). vm_compute in H. discriminate H.
+Qed.
+Print Assumptions C06_refines_reference_store_refuted.
+
+(* what holds: configurations without (read handler + no_read_access); histories without Read By Type / Read
+   Multiple (their responses are scanned by the monitor for unreadable handles; tied, not proved) *)
+Theorem C06_refines_reference_store_partial :
+  forall c ops, no_k1 c -> forallb not_scanned ops = true -> monitor c (srv_run c (srv_init c) ops) = None.
+Proof. exact monitor_sound. Qed.
+Print Assumptions C06_refines_reference_store_partial.
+
+Theorem C06_no_k1_decidable : forall c, no_k1_b c = true -> no_k1 c.
+Proof. exact no_k1_b_sound. Qed.
+Print Assumptions C06_no_k1_decidable.
+
+(* ---- non-vacuity *)
+Example C06_hypotheses_nonvacuous :
+  wf cfg_v_perms /\ no_k1 cfg_v_perms /\ wf cfg_v_fixed /\ no_k1 cfg_v_fixed /\ wf cfg_v_handlers /\ no_k1 cfg_v_handlers
+  /\ wf cfg_v_handler_noread /\ no_k1_b cfg_v_handler_noread = false.
+Proof. repeat split; try (vm_compute; reflexivity); apply no_k1_b_sound; vm_compute; reflexivity. Qed.
+
+(* cfg_v_wq10: handle 3 = a 4 byte value (1, 12, 23, 34), handle 8 = 20 bytes with no_write_access *)
+Example C06_model_trace :
+  map snd (srv_run cfg_v_wq10 (srv_init cfg_v_wq10)
+    [OpIn O [10; 3; 0] 23; OpIn O [18; 3; 0; 9; 8] 23; OpVal O; OpIn O [18; 3; 0; 1; 2; 3; 4; 5] 23; OpVal O;
+     OpIn O [12; 3; 0; 3; 0] 23; OpIn O [12; 3; 0; 4; 0] 23; OpIn O [12; 3; 0; 5; 0] 23; OpIn O [18; 8; 0; 1] 23; OpIn O [10; 7; 0] 23])
+  = [OBytes [11; 1; 12; 23; 34]; OBytes [19]; OValue [9; 8; 23; 34] None; OBytes [1; 18; 3; 0; 13]; OValue [9; 8; 23; 34] None;
+     OBytes [13; 34]; OBytes [13]; OBytes [1; 12; 3; 0; 7]; OBytes [1; 18; 8; 0; 3]; OBytes [11; 2; 8; 0; 2; 42]].
+Proof. vm_compute. reflexivity. Qed.
+
+(* the monitor is not trivially accepting: one rejected trace per clause *)
+Example C06_monitor_rejects_wrong_value :
+  monitor cfg_v_wq10 [(OpIn O [10; 3; 0] 23, OBytes [11; 1; 12; 23; 35])] = Some (0%nat, t_read_value).
+Proof. vm_compute. reflexivity. Qed.
+
+Example C06_monitor_rejects_inexact_write :                       (* one byte more than written is changed *)
+  monitor cfg_v_wq10 [(OpIn O [18; 3; 0; 9; 8] 23, OBytes [19]); (OpVal O, OValue [9; 8; 0; 34] None)] = Some (1%nat, t_write_exact).
+Proof. vm_compute. reflexivity. Qed.
+
+Example C06_monitor_rejects_change_by_rejected_write :
+  monitor cfg_v_wq10 [(OpIn O [18; 3; 0; 1; 2; 3; 4; 5] 23, OBytes [1; 18; 3; 0; 13]); (OpVal O, OValue [1; 2; 3; 4] None)]
+  = Some (1%nat, t_rejected_changes).
+Proof. vm_compute. reflexivity. Qed.
+
+Example C06_monitor_rejects_missing_invalid_offset :
+  monitor cfg_v_wq10 [(OpIn O [12; 3; 0; 5; 0] 23, OBytes [13])] = Some (0%nat, t_invalid_offset)
+  /\ monitor cfg_v_wq10 [(OpIn O [12; 3; 0; 4; 0] 23, OBytes [1; 12; 3; 0; 7])] = Some (0%nat, t_invalid_offset).
+Proof. split; vm_compute; reflexivity. Qed.
+
+Example C06_monitor_rejects_write_to_protected_value :            (* handle 8: no_write_access *)
+  monitor cfg_v_wq10 [(OpIn O [18; 8; 0; 1] 23, OBytes [19])] = Some (0%nat, t_permission).
+Proof. vm_compute. reflexivity. Qed.
+
+Example C06_monitor_rejects_wrong_properties :                    (* declaration of the no_write_access value shows Write *)
+  monitor cfg_v_wq10 [(OpIn O [10; 7; 0] 23, OBytes [11; 10; 8; 0; 2; 42])] = Some (0%nat, t_properties_match).
+Proof. vm_compute. reflexivity. Qed.
+
+Example C06_monitor_rejects_unreadable_in_read_by_type :          (* cfg_v_perms: handle 3 = value with no_read_access *)
+  monitor cfg_v_perms [(OpIn O [8; 1; 0; 255; 255; 0; 42] 23, OBytes [9; 4; 3; 0; 1; 38])] = Some (0%nat, t_permission).
 Proof. vm_compute. reflexivity. Qed.
